@@ -6,14 +6,75 @@ theorem entriesOf_nil : entriesOf [] = [] := rfl
 theorem entriesOf_cons (i : Item) (a : Archive) : entriesOf (i :: a) = i.entries ++ entriesOf a := by
   simp [entriesOf]
 
-/-- Both strategies produce, at the level of the entries the library returns, `filterMap f`. -/
-theorem entriesOf_unsolid (f : LEntry → Option LEntry) (a : Archive) :
-    entriesOf (transformUnsolid f a) = (entriesOf a).filterMap f := by
-  unfold transformUnsolid
-  generalize (entriesOf a).filterMap f = l
+theorem entriesOf_append (a b : Archive) : entriesOf (a ++ b) = entriesOf a ++ entriesOf b := by
+  simp [entriesOf]
+
+/-- the entries as the strategy hands them on: `--unsolid` writes the entries of a block on their own -/
+def Item.written : Item → List LEntry
+  | .normal e => [e]
+  | .solid h _ es => es.map (standalone h)
+
+def writtenOf : Strategy → Archive → List LEntry
+  | .unsolid, a => a.flatMap Item.written
+  | .keepSolid, a => entriesOf a
+
+/-- a command's entry function neither reads nor writes the stored form -/
+def Respects (f : LEntry → Option LEntry) : Prop := ∀ h e, f (standalone h e) = (f e).map (standalone h)
+
+/-- an entry without its stored form (codec, cipher, mode): what C10 calls its content and attributes -/
+def LEntry.content (e : LEntry) : LEntry := { e with data := e.data.drop 3 }
+
+theorem content_standalone (h : Bytes) (e : LEntry) : (standalone h e).content = e.content := by
+  unfold standalone LEntry.content
+  split <;> simp
+
+theorem standalone_plain (h : Bytes) (e : LEntry) (hp : h.getD 3 0 = 0) : standalone h e = e := by
+  have hp2 : h[3]?.getD 0 = 0 := by simpa [List.getD] using hp
+  simp [standalone, hp2]
+
+theorem standalone_attrs (h : Bytes) (e : LEntry) :
+    (standalone h e).name = e.name ∧ (standalone h e).kind = e.kind ∧ (standalone h e).rawSize = e.rawSize ∧
+    (standalone h e).mode = e.mode ∧ (standalone h e).owner = e.owner ∧ (standalone h e).created = e.created ∧
+    (standalone h e).modified = e.modified ∧ (standalone h e).accessed = e.accessed ∧
+    (standalone h e).xattrs = e.xattrs ∧ (standalone h e).extras = e.extras := by
+  unfold standalone; split <;> simp
+
+theorem filterMap_respects (f : LEntry → Option LEntry) (hf : Respects f) (h : Bytes) (es : List LEntry) :
+    (es.map (standalone h)).filterMap f = (es.filterMap f).map (standalone h) := by
+  induction es with
+  | nil => rfl
+  | cons e es ih =>
+    simp only [List.map_cons, List.filterMap_cons, hf h e]
+    cases f e <;> simp [ih]
+
+theorem entriesOf_map_normal (l : List LEntry) : entriesOf (l.map Item.normal) = l := by
   induction l with
   | nil => rfl
   | cons e l ih => simp [entriesOf_cons, Item.entries, ih]
+
+theorem transformUnsolid_cons (f : LEntry → Option LEntry) (i : Item) (a : Archive) :
+    transformUnsolid f (i :: a) = transformUnsolid f [i] ++ transformUnsolid f a := by
+  simp [transformUnsolid]
+
+/-- `--unsolid`, at the level of the entries the library returns. -/
+theorem entriesOf_unsolid (f : LEntry → Option LEntry) (hf : Respects f) (a : Archive) :
+    entriesOf (transformUnsolid f a) = (writtenOf .unsolid a).filterMap f := by
+  induction a with
+  | nil => rfl
+  | cons i a ih =>
+    rw [transformUnsolid_cons, entriesOf_append, ih]
+    simp only [writtenOf, List.flatMap_cons, List.filterMap_append]
+    congr 1
+    cases i with
+    | normal e =>
+      simp only [transformUnsolid, List.flatMap_cons, List.flatMap_nil, List.append_nil, Item.written, List.filterMap_cons,
+        List.filterMap_nil]
+      cases f e <;> simp [entriesOf, Item.entries]
+    | solid h x es =>
+      simp only [transformUnsolid, List.flatMap_cons, List.flatMap_nil, List.append_nil, Item.written]
+      rw [filterMap_respects f hf]
+      have : (fun e => Item.normal (standalone h e)) = Item.normal ∘ standalone h := rfl
+      rw [this, ← List.map_map, entriesOf_map_normal]
 
 theorem entriesOf_keepSolid (f : LEntry → Option LEntry) (a : Archive) :
     entriesOf (transformKeepSolid f a) = (entriesOf a).filterMap f := by
@@ -30,11 +91,66 @@ theorem entriesOf_keepSolid (f : LEntry → Option LEntry) (a : Archive) :
     | solid h x es =>
       simp only [List.filterMap_cons, entriesOf_cons, Item.entries, List.filterMap_append, ih]
 
-theorem entriesOf_transform (s : Strategy) (f : LEntry → Option LEntry) (a : Archive) :
-    entriesOf (transform s f a) = (entriesOf a).filterMap f := by
+/-- Both strategies produce, at the level of the entries the library returns, `filterMap f` of the
+    entries as the strategy hands them on. -/
+theorem entriesOf_transform (s : Strategy) (f : LEntry → Option LEntry) (hf : Respects f) (a : Archive) :
+    entriesOf (transform s f a) = (writtenOf s a).filterMap f := by
   cases s
-  · exact entriesOf_unsolid f a
+  · exact entriesOf_unsolid f hf a
   · exact entriesOf_keepSolid f a
+
+/-- … and what is handed on is the archive's entries up to the stored form of the file entries of
+    encrypted blocks under `--unsolid`: names, kinds, contents and every attribute are the same. -/
+theorem written_content (s : Strategy) (a : Archive) :
+    (writtenOf s a).map LEntry.content = (entriesOf a).map LEntry.content := by
+  cases s
+  · simp only [writtenOf, entriesOf]
+    induction a with
+    | nil => rfl
+    | cons i a ih =>
+      simp only [List.flatMap_cons, List.map_append, ih]
+      congr 1
+      cases i with
+      | normal e => rfl
+      | solid h x es => simp [Item.written, Item.entries, content_standalone]
+  · rfl
+
+theorem written_keepSolid (a : Archive) : writtenOf .keepSolid a = entriesOf a := rfl
+
+/-- no encrypted block: nothing is written again -/
+theorem written_plain (s : Strategy) (a : Archive)
+    (hp : ∀ i ∈ a, match i with | .normal _ => True | .solid h _ _ => h.getD 3 0 = 0) :
+    writtenOf s a = entriesOf a := by
+  cases s
+  · simp only [writtenOf, entriesOf]
+    induction a with
+    | nil => rfl
+    | cons i a ih =>
+      simp only [List.flatMap_cons]
+      rw [ih (fun j hj => hp j (List.mem_cons_of_mem _ hj))]
+      congr 1
+      cases i with
+      | normal e => rfl
+      | solid h x es =>
+        have := hp (.solid h x es) (List.mem_cons_self ..)
+        simp only [Item.written, Item.entries]
+        conv => rhs; rw [← List.map_id es]
+        apply List.map_congr_left
+        intro e _
+        exact standalone_plain h e this
+  · rfl
+
+/-- after `--unsolid` there is no block left: a second pass writes nothing again -/
+theorem written_unsolid (s : Strategy) (f : LEntry → Option LEntry) (a : Archive) :
+    writtenOf s (transformUnsolid f a) = entriesOf (transformUnsolid f a) := by
+  apply written_plain
+  intro i hi
+  simp only [transformUnsolid, List.mem_flatMap] at hi
+  obtain ⟨j, _, hj⟩ := hi
+  cases j with
+  | normal e => cases hfe : f e <;> simp [hfe] at hj; subst hj; trivial
+  | solid h x es => simp only [List.mem_map] at hj; obtain ⟨e, _, rfl⟩ := hj; trivial
+
 
 /-- `filterMap` with a total, entry-wise function is `map`. -/
 theorem filterMap_some_map {α β} (g : α → β) (l : List α) : l.filterMap (fun e => some (g e)) = l.map g := by
@@ -68,6 +184,34 @@ theorem keepSolid_frames (f : LEntry → Option LEntry) (a : Archive) :
       simp only [List.filterMap_cons]
       cases f e <;> simp [ih]
     | solid h x es => simp [ih]
+
+-- ---------------------------------------------------------------- the commands respect the stored form
+
+theorem respects_delete (sel excl : Bytes → Bool) : Respects (deleteF sel excl) := by
+  intro h e
+  unfold deleteF standalone
+  split <;> split <;> simp_all
+
+theorem respects_chmod (sel : Bytes → Bool) (m : Mode) : Respects (chmodF sel m) := by
+  intro h e
+  unfold chmodF standalone
+  split <;> split <;> simp_all
+
+theorem respects_chown (sel : Bytes → Bool) (u g : Option (Nat × Bytes)) : Respects (chownF sel u g) := by
+  intro h e
+  unfold chownF standalone
+  split <;> split <;> simp_all
+
+theorem respects_xattr (sel : Bytes → Bool) (set : Option (Bytes × Bytes)) (rm : Option Bytes) : Respects (xattrF sel set rm) := by
+  intro h e
+  unfold xattrF standalone
+  split <;> split <;> simp_all
+
+theorem respects_strip (o : StripOpts) : Respects (stripF o) := by
+  intro h e
+  by_cases hc : (h.getD 3 0 != 0 && e.kind == 0) = true
+  · simp only [standalone, hc, if_true, stripF, Option.map_some]
+  · simp only [standalone, hc, stripF, Option.map_some]; rfl
 
 -- ---------------------------------------------------------------- chmod algebra
 
